@@ -133,6 +133,28 @@ struct Scenario {
 			}
 		});
 		if (o.cls != 'R') { bad("reopen-or-extract-throws", key, o.what); return false; }
+		// all member streams alive at once, read alternately in small steps: each must still deliver its own chunk
+		if (ok && order.size() >= 2) {
+			auto oi = mc::guarded([&] {
+				Archive::ClmFile c("out.clm");
+				std::vector<std::unique_ptr<Stream::BidirectionalReader>> st;
+				std::vector<std::vector<uint8_t>> got(order.size());
+				for (std::size_t i = 0; i < order.size(); ++i) st.push_back(c.OpenStream(i));
+				bool more = true;
+				while (more) {
+					more = false;
+					for (std::size_t i = order.size(); i-- > 0;) {
+						uint8_t buf[3];
+						std::size_t n = st[i]->ReadPartial(buf, 1 + i % 3);
+						got[i].insert(got[i].end(), buf, buf + n);
+						if (n) more = true;
+					}
+				}
+				for (std::size_t i = 0; i < order.size(); ++i) if (got[i] != audioOf(*order[i])) { bad("interleaved-stream-bytes", key, baseOf(*order[i])); ok = false; return; }
+				ctx.count("streams/interleaved");
+			});
+			if (oi.cls != 'R') { bad("interleaved-streams-throw", key, oi.what); return false; }
+		}
 		mc::removeTree("xall");
 		return ok;
 	}
